@@ -7,12 +7,15 @@ open CC CC.Driver
 open CC.Spec (OrdMap)
 open CC.Spec.OrdMap (Op Out Cursor)
 
-/-- the comparators of the harness (`harness/tree_common.h`): numeric, reversed, by `v % 100` then `v` -/
+/-- the comparators of the harness (`harness/tree_common.h`): numeric, reversed, by `v % 100` then `v`, numeric with large magnitudes
+(the difference clamped to ±(2^31-1)) -/
 def cmpOf (which : Nat) : Nat → Nat → Int := fun a b =>
   match which with
   | 1 => if a < b then 1 else if b < a then -1 else 0
   | 2 => if a % 100 ≠ b % 100 then (if a % 100 > b % 100 then 7 else -7)
          else if a > b then 3 else if a < b then -3 else 0
+  | 3 => if b < a then (if a - b > 2147483647 then 2147483647 else ((a - b : Nat) : Int))
+         else if a < b then (if b - a > 2147483647 then -2147483647 else -((b - a : Nat) : Int)) else 0
   | _ => if a < b then -1 else if b < a then 1 else 0
 
 structure Sess where
